@@ -16,6 +16,8 @@ Structural clauses decided:
  R9 (also) quick extractor and full parser try the link-layer interpretations in the same order (Ethernet, raw IP, NULL)
  R8 (also) every process_packet call site of the worker loop passes the worker's filter
 """
+import re
+
 from ..engine import cfg as C
 from ..engine import q as Q
 from ..engine import tables as TB
@@ -452,7 +454,19 @@ def _decode_signature(P, b):
             k = cint(a_)
             if k is not None and last in ("saturating_add", "saturating_mul", "checked_add", "checked_mul", "wrapping_add", "saturating_sub"):
                 arith.add((last.split("_")[-1], k))
-    return (tuple(sorted(reads)), tuple(sorted(tests)), tuple(sorted(arith, key=str)), tuple(sorted(orders)))
+    # which helper handles which switched value (`0x0800 => extract_ipv4_info`, `0x86DD => extract_ipv6_info`)
+    dispatch = set()
+    for bi, blk in enumerate(b.blocks):
+        tt = blk["t"]
+        if tt["k"] == "switch" and tt.get("ty") not in ("bool", "isize"):
+            for (v, tgt) in tt.get("arms", []):
+                reg = Q.dominated_region(b, tgt)
+                for cb_, ct_ in b.calls():
+                    if cb_ in reg and not Q.in_tracing(ct_["span"]):
+                        nm = callee_of(ct_)
+                        if nm.startswith("huginn_net") or nm.endswith(("Packet::<'a>::new", "Packet::new")):
+                            dispatch.add((v, re.sub(r"^huginn_net(_[a-z]+)?::", "", nm)))
+    return (tuple(sorted(reads)), tuple(sorted(tests)), tuple(sorted(arith, key=str)), tuple(sorted(orders)), tuple(sorted(dispatch)))
 
 
 def rule_siblings(ctx):
@@ -488,7 +502,8 @@ def rule_siblings(ctx):
             if sg is major[0]:
                 continue
             dc = {"bytes read": sorted(set(sg[0]) ^ set(major[0][0])), "values tested": sorted(set(sg[1]) ^ set(major[0][1])),
-                  "masks/shifts/steps": sorted(set(sg[2]) ^ set(major[0][2]), key=str)}
+                  "masks/shifts/steps": sorted(set(sg[2]) ^ set(major[0][2]), key=str),
+                  "value -> helper": sorted(set(sg[4]) ^ set(major[0][4]), key=str)}
             dc = {k_: v_ for k_, v_ in dc.items() if v_}
             dv = (list(sg[3]), list(major[0][3]))
             for fam in fs:
@@ -505,12 +520,22 @@ def rule_workers(ctx):
     for crate, fam in (("huginn_net_tcp", "tcp"), ("huginn_net_http", "http"), ("huginn_net_tls", "tls")):
         W.uniform_workers(ctx, ctx.program, crate, fam, "R8")
         W.filter_reaches_pipeline(ctx, ctx.program, crate, fam, "R8")
+        # a packet the filter rejects yields an empty result and nothing else: in particular it does not stop the worker that met it
+        # (the admitted packets queued behind it must still be analysed)
+        P_ = ctx.program
+        wl = [x for x in P_.method("WorkerPool", "worker_loop") if x.crate == crate]
+        wp = [x for x in P_.method("WorkerPool", "process_packet") if x.crate == crate]
+        if len(wl) == 1 and len(wp) == 1:
+            W.exit_conditions(ctx, P_, fam, wl[0], wp[0], "R8")
+        else:
+            ctx.cannot("R8", fam + ":worker_loop:exits", "worker_loop / process_packet not unique in %s" % crate)
 
 
 def rule_link_order(ctx):
     """R9: filter and analyzer agree on the link-layer interpretation order"""
     from . import _endpoints as E
     E.link_layer_order(ctx, ctx.program, "R9", ("huginn_net_tcp", "huginn_net_http", "huginn_net_tls", "huginn_net"))
+    E.ip_from_same_slice(ctx, ctx.program, "R9", ("huginn_net_tcp", "huginn_net_http", "huginn_net_tls", "huginn_net"))
 
 
 def run(ctx):
